@@ -1,6 +1,12 @@
-/- line-protocol driver for C15: `drv_c15 <sub-command>` reads operations on stdin, prints one canonical line per operation.
+/- line-protocol driver for C15: `drv_c15 symbols` (declaration sequences → symbol tables of model and spec),
+   `drv_c15 addr` (the address-form table of gen_addr's ND_VAR arm).
    Core Lean only (nothing imported here may import Mathlib, or the executable will not link). -/
+import ChibiVerif.Driver.LinkageCmd
 
 def main (args : List String) : IO UInt32 := do
-  IO.eprintln s!"drv_c15: no sub-commands yet (args {args})"
-  return 2
+  match args with
+  | "symbols" :: _ => ChibiVerif.Driver.LinkageCmd.symbolsMain
+  | "addr" :: _ => ChibiVerif.Driver.LinkageCmd.addrMain
+  | _ =>
+    IO.eprintln "usage: drv_c15 symbols | addr"
+    return 2
